@@ -512,3 +512,134 @@ def _only_panics(b, s):
             return False
         st.extend(b.succ(x))
     return True
+
+
+# ---------------------------------------------------------------------------------------------------
+def rule_siblings(env, shared):
+    """SIB: implementations of one interface agree. The reservation helper and try_get_len of the known-size implementors
+    have the same shape once LEN and the counter place are abstracted; the ConcurrentIter methods that only dispatch
+    (next_id_and_value, next_chunk, buffered_iter, skip_to_end) have the same shape in all non-adaptor implementors."""
+    from terms import Evaluator, Ctx
+    import r_m1
+    out = []
+    R, F = env.R, env.F
+    m = r_m1._m1(env)
+    ev = env.ev
+    ev0 = Evaluator(F, inline=False)
+
+    def norm(t, adt):
+        r = R.impl[adt]
+        lt = r.get("len_term")
+        Lc = m.canon(lt) if lt is not None else None
+
+        def f(x):
+            if Lc is not None and m.canon(x) == Lc:
+                return ("const", "LEN")
+            if x[0] == "field" and len(x) > 4 and x[4] == adt and x[2] == r.get("pos"):
+                return ("const", "POS")
+            if x[0] in ("atomic", "ret") and len(x) > 4:
+                return x[:4] + ((),)
+            if x[0] == "agg" and x[1].startswith("closure:"):
+                return ("agg", "closure", x[2])
+            if x[0] == "fnref":
+                return ("fnref", x[1].split("<")[0].replace(adt, "X"))
+            return None
+        return fmt(r_m1.rewrite(m.canon(t), f)).replace(adt, "X").replace(r["name"], "X")
+
+    groups = {}
+    known = [a for a, r in R.impl.items() if r["kind"] == "known"]
+    for adt in known:
+        for tr, nm in ((R.T_ATOMIC, "progress_and_get_begin_idx"), (R.T_CON, "try_get_len")):
+            b = R.method_body(tr, nm, adt)
+            if b is None:
+                continue
+            t = ev.local(env.ctx(b, adt, env.world_of(adt)), 0)
+            groups.setdefault(nm, {})[R.impl[adt]["name"]] = (norm(t, adt), b)
+    nonad = [a for a, r in R.impl.items() if r["kind"] != "adaptor"]
+    for adt in nonad:
+        for nm in ("next_id_and_value", "next_chunk", "skip_to_end"):
+            b = R.method_body(R.T_CON, nm, adt)
+            if b is None:
+                continue
+            t = ev0.local(Ctx(b, self_adt=adt, stack=(b.def_,)), 0)
+            s = fmt(t)
+            for a2 in nonad:
+                s = s.replace(a2, "X")
+            s = s.split("<")[0] + "(" + s.split("(", 1)[1] if "(" in s else s
+            groups.setdefault(nm, {})[R.impl[adt]["name"]] = (s, b)
+    for nm, d in sorted(groups.items()):
+        shapes = {}
+        for who, (s, b) in d.items():
+            shapes.setdefault(s, []).append(who)
+        k = "SIB|%s" % nm
+        if len(shapes) == 1:
+            out.append(Ob("SIB", k, "ok", "-", "%d implementations of %s have the same shape" % (len(d), nm), True))
+        else:
+            # the minority deviates
+            major = max(shapes.items(), key=lambda kv: len(kv[1]))
+            for s, whos in shapes.items():
+                if s == major[0]:
+                    continue
+                for who in whos:
+                    b = d[who][1]
+                    out.append(Ob("SIB", k + "|" + who, "viol", b.file_line(),
+                                  "%s of %s deviates from its siblings (%s): %s   vs   %s" % (
+                                      nm, who, ", ".join(major[1]), s[:150], major[0][:150])))
+    return out
+
+
+def rule_cfgdiff(env, shared):
+    """CFGDIFF (thorough): apart from overflow asserts, debug_assert! blocks and compiler-inserted pointer checks, every
+    function has the same calls in all build configurations (nothing is conditional on cfg!(debug_assertions))."""
+    out = []
+    envs = shared.get("envs", {})
+    if len(envs) < 2:
+        return out
+
+    def sig(b):
+        calls = []
+        for bi, blk in enumerate(b.blocks):
+            if blk["cleanup"]:
+                continue  # unwind paths exist only where something can panic (e.g. overflow asserts)
+            t = blk["term"]
+            mac = t["loc"].get("outer_macro") or ""
+            if mac.endswith("debug_assert") or mac.endswith("debug_assert_eq") or mac.endswith("debug_assert_ne"):
+                continue
+            if t["k"] == "call":
+                c = b.callee(bi)
+                calls.append(c.key if not c.indirect else "<indirect>")
+            elif t["k"] == "drop":
+                calls.append("drop:" + t["ty"]["s"][:40])
+        return sorted(calls)
+    names = sorted(envs)
+    base = envs[names[0]]
+    for d, b in base.F.bodies.items():
+        if base.F.is_test_item(b) or b.kind == "Promoted":
+            continue
+        s0 = sig(b)
+        k = "CFGDIFF|%s" % base.fname(b)
+        bad = None
+        for n2 in names[1:]:
+            b2 = envs[n2].F.bodies.get(d)
+            if b2 is None or b2.path != b.path:
+                # def ids may shift between configurations: match by path
+                cand = [x for x in envs[n2].F.bodies.values() if x.path == b.path]
+                b2 = cand[0] if cand else None
+            if b2 is None:
+                bad = "missing in configuration %s" % n2
+                break
+            s2 = sig(b2)
+            if s2 != s0:
+                diff = sorted(set(s0) ^ set(s2))[:4]
+                bad = "calls differ between %s and %s: %s" % (names[0], n2, diff)
+                break
+        if bad:
+            out.append(Ob("CFGDIFF", k, "viol", b.file_line(),
+                          "%s behaves differently depending on the build configuration (%s): debug and optimized builds "
+                          "diverge" % (base.fname(b), bad)))
+        else:
+            out.append(Ob("CFGDIFF", k, "ok", b.file_line(), "same calls in all %d configurations" % len(names)))
+    return out
+
+
+rule_cfgdiff.once = True
